@@ -33,6 +33,7 @@ type Net struct {
 	listeners map[string]*Listener
 	wseq      int64
 	TapOn     bool
+	LogReads  bool
 	Tap       []TapEvent
 	// fault counters (fired, not configured)
 	Fired map[string]int
@@ -112,6 +113,15 @@ type Conn struct {
 	local    net.Addr
 	remote   net.Addr
 	Closes   int
+	// ReadCalls logs (if Net.LogReads) the virtual time of every Read call and
+	// how many bytes this end had consumed before it
+	ReadCalls []ReadCall
+	consumed  int64
+}
+
+type ReadCall struct {
+	At             time.Duration
+	ConsumedBefore int64
 }
 
 var errTimeout = os.ErrDeadlineExceeded
@@ -396,6 +406,9 @@ func (c *Conn) Read(b []byte) (int, error) {
 	n.mu.Lock()
 	defer n.mu.Unlock()
 	p := c.in
+	if n.LogReads {
+		c.ReadCalls = append(c.ReadCalls, ReadCall{n.W.Elapsed(), c.consumed})
+	}
 	for {
 		if c.closed {
 			return 0, errClosed
@@ -414,6 +427,7 @@ func (c *Conn) Read(b []byte) (int, error) {
 				return 0, nil
 			}
 			k := copy(b, p.delivered)
+			c.consumed += int64(k)
 			p.delivered = p.delivered[k:]
 			if len(p.delivered) == 0 {
 				p.delivered = nil
